@@ -44,6 +44,12 @@ def templates(tier="quick"):
     v = Variant("v0", [Stmt("obj", ex=["src"], hidden=["hdr", "hdr2"], depfile=True), Stmt("exe", ex=["obj"])])
     T += _mk("depfile", [v], tags=["depfile"], depth=d, rm_depfiles=True)
 
+    # T4c a checked-in header that the statement lists after `||` and that its depfile names as well: what the depfile says makes
+    # it a real dependency (plain depfile and deps log)
+    for kind, kw in (("depfile", {"depfile": True}), ("gcc", {"deps": "gcc"})):
+        v = Variant("v0", [Stmt("obj", ex=["src"], oo=["hdr", "stamp"], hidden=["hdr", "hdr2"], **kw), Stmt("stamp", ex=["cfg"]), Stmt("exe", ex=["obj"])])
+        T += _mk("discovered_dep_also_order_only_" + kind, [v], tags=["depfile"], depth=d)
+
     # T5 deps=gcc with order-only input
     v = Variant("v0", [Stmt("stamp", ex=["cfg"]),
                        Stmt("obj", ex=["src"], oo=["stamp"], hidden=["a.h", "b.h"], deps="gcc"),
